@@ -232,10 +232,22 @@ fn text_string(r: &mut StdRng, c: &str) -> String {
         "long" => "x".repeat(r.gen_range(2000..4000)),
         "slashes" => ["a/b", "/lead", "trail/", "a//b", "../up"][r.gen_range(0..5)].to_string(),
         "plus_space" => ["a+b c", "+", " ", "1 + 1 = 2"][r.gen_range(0..4)].to_string(),
+        "message_like" => message_like(r),
         // a marker that the encoders below turn into bytes that are not UTF-8
         "invalid_utf8" => "ab\u{e000}INVALID\u{e000}cd".to_string(),
         _ => String::new(),
     }
+}
+
+/// Text that reads like part of a deserialiser's error message.
+fn message_like(r: &mut StdRng) -> String {
+    [
+        "missing field", "missing field `n`", "a missing field here", "unknown variant", "unknown variant `red`",
+        "unknown field `x`, expected `n`", "duplicate field `n`", "invalid type: string \"1\", expected u8",
+        "invalid value: integer `-1`, expected u32", "invalid length 0", "expected value at line 1 column 1",
+        "EOF while parsing a value", "data did not match any variant", "unable to parse '1' as u8",
+    ][r.gen_range(0..14)]
+    .to_string()
 }
 
 /// (text as the client writes it, parsed value if valid)
@@ -267,6 +279,7 @@ fn text_value(r: &mut StdRng, ty: &str, c: &str) -> (String, Option<Value>) {
             let s = text_string(r, c);
             (s.clone(), Some(json!(s)))
         }
+        _ if ty != "string" && c == "message_like" => (message_like(r), None),
         "bool" => match c {
             "true" => ("true".into(), Some(json!(true))),
             "false" => ("false".into(), Some(json!(false))),
